@@ -106,7 +106,7 @@ func gen(r *verifsim.Rng, tier string) (any, hx.Sched) {
 		in := insts[r.Intn(len(insts))]
 		op := Op{K: "W", Inst: in.Inst, Val: verifsim.Pick(r, values)}
 		if in.Class == "G1" {
-			op.Mem = verifsim.Pick(r, []string{"p", "p", "p", "set", "put", "put", "q"}) // q: declared ?T
+			op.Mem = verifsim.Pick(r, []string{"p", "p", "p", "set", "put", "put", "q", "u", "ctor"}) // q: declared ?T, u: T|null, ctor: new G6<T>(value), a promoted constructor parameter
 		} else if in.Class == "G3" {
 			op.Mem = verifsim.Pick(r, []string{"p", "put"})
 		} else if in.Class == "G5" {
@@ -115,6 +115,9 @@ func gen(r *verifsim.Rng, tier string) (any, hx.Sched) {
 			op.Mem = verifsim.Pick(r, []string{"a", "b", "c", "d", "d"})
 		} else {
 			op.Mem = verifsim.Pick(r, []string{"a", "b"})
+		}
+		if op.Mem == "ctor" {
+			op.Args = in.Args
 		}
 		w.Ops = append(w.Ops, op)
 	}
@@ -199,6 +202,7 @@ class G5<T> {
 class G1<T> {
   public T $p;
   public ?T $q = null;
+  public T|null $u = null;
   public function set(T $v) { return 1; }
   public function put($v) { $this->p = $v; return 1; }
 }
@@ -208,6 +212,13 @@ class G3<T> extends Base3 {
   public T $p;
   public function put($v) { $this->p = $v; return 1; }
 }
+class G6<T> {
+  public function __construct(public T $x) { }
+}
+class C6int { public function __construct(public int $x) { } }
+class C6string { public function __construct(public string $x) { } }
+class C6array { public function __construct(public array $x) { } }
+class C6U { public function __construct(public U $x) { } }
 class G2<K, W> {
   public K $a;
   public W $b;
@@ -218,12 +229,13 @@ class G4<A, B, C, D> {
   public C $c;
   public D $d;
 }
-class Cint { public int $p; public ?int $q = null; public function set(int $v) { return 1; } }
-class Cstring { public string $p; public ?string $q = null; public function set(string $v) { return 1; } }
-class Carray { public array $p; public ?array $q = null; public function set(array $v) { return 1; } }
-class CU { public U $p; public ?U $q = null; public function set(U $v) { return 1; } }
+class Cint { public int $p; public ?int $q = null; public int|null $u = null; public function set(int $v) { return 1; } }
+class Cstring { public string $p; public ?string $q = null; public string|null $u = null; public function set(string $v) { return 1; } }
+class Carray { public array $p; public ?array $q = null; public array|null $u = null; public function set(array $v) { return 1; } }
+class CU { public U $p; public ?U $q = null; public U|null $u = null; public function set(U $v) { return 1; } }
 function wp($o, $v) { try { $o->p = $v; return "A"; } catch (\Throwable $e) { return "R"; } }
 function wq($o, $v) { try { $o->q = $v; return "A"; } catch (\Throwable $e) { return "R"; } }
+function wu($o, $v) { try { $o->u = $v; return "A"; } catch (\Throwable $e) { return "R"; } }
 function wa($o, $v) { try { $o->a = $v; return "A"; } catch (\Throwable $e) { return "R"; } }
 function wb($o, $v) { try { $o->b = $v; return "A"; } catch (\Throwable $e) { return "R"; } }
 function wc($o, $v) { try { $o->c = $v; return "A"; } catch (\Throwable $e) { return "R"; } }
@@ -249,7 +261,11 @@ func renderOp(op Op, idx int) string {
 		}
 		return fmt.Sprintf("$o%d = new %s<%s>();\n", op.Inst, op.Class, strings.Join(op.Args, ", "))
 	}
-	fn := map[string]string{"p": "wp", "q": "wq", "a": "wa", "b": "wb", "set": "wset", "put": "wput", "c": "wc", "d": "wd", "fill": "wfill", "made": "wmade"}[op.Mem]
+	if op.Mem == "ctor" {
+		// constructs a G6 with the SAME type arguments as the instance, passing the value to a promoted parameter
+		return fmt.Sprintf("__rec(\"w%d\", (function() { try { $x = new G6<%s>(%s); return \"A\"; } catch (\\Throwable $e) { return \"R\"; } })());\n", idx, strings.Join(op.Args, ", "), valueExpr[op.Val])
+	}
+	fn := map[string]string{"p": "wp", "q": "wq", "u": "wu", "a": "wa", "b": "wb", "set": "wset", "put": "wput", "c": "wc", "d": "wd", "fill": "wfill", "made": "wmade"}[op.Mem]
 	return fmt.Sprintf("__rec(\"w%d\", %s($o%d, %s));\n", idx, fn, op.Inst, valueExpr[op.Val])
 }
 
@@ -262,6 +278,8 @@ func concreteScript() string {
 			fmt.Fprintf(&b, "__rec(\"c.p.%s.%s\", wp(new C%s(), %s));\n", t, v, t, valueExpr[v])
 			fmt.Fprintf(&b, "__rec(\"c.set.%s.%s\", wset(new C%s(), %s));\n", t, v, t, valueExpr[v])
 			fmt.Fprintf(&b, "__rec(\"c.q.%s.%s\", wq(new C%s(), %s));\n", t, v, t, valueExpr[v])
+			fmt.Fprintf(&b, "__rec(\"c.u.%s.%s\", wu(new C%s(), %s));\n", t, v, t, valueExpr[v])
+			fmt.Fprintf(&b, "__rec(\"c.ctor.%s.%s\", (function() { try { $x = new C6%s(%s); return \"A\"; } catch (\\Throwable $e) { return \"R\"; } })());\n", t, v, t, valueExpr[v])
 		}
 	}
 	return b.String()
@@ -414,8 +432,8 @@ func exec(t *testing.T, x any, s hx.Sched) *hx.Outcome {
 			}
 			// oracle 2 (own arguments): differential against a non-generic class declared with the concrete type
 			ckey := fmt.Sprintf("c.%s.%s.%s", map[bool]string{true: "set", false: "p"}[op.Mem == "set"], targ, op.Val) // put() stores into p
-			if op.Mem == "q" {
-				ckey = fmt.Sprintf("c.q.%s.%s", targ, op.Val)
+			if op.Mem == "q" || op.Mem == "u" || op.Mem == "ctor" {
+				ckey = fmt.Sprintf("c.%s.%s.%s", op.Mem, targ, op.Val)
 			}
 			if op.Mem == "fill" || op.Mem == "made" {
 				ckey = "" // what `new T()` builds has no non-generic counterpart; the solo oracle covers it
@@ -430,8 +448,15 @@ func exec(t *testing.T, x any, s hx.Sched) *hx.Outcome {
 }
 
 func memKind(m string) string {
-	if m == "set" {
+	switch m {
+	case "set":
 		return "parameter"
+	case "q":
+		return "nullable-property"
+	case "u":
+		return "union-property"
+	case "ctor":
+		return "constructor-parameter"
 	}
 	return "property"
 }
